@@ -2,7 +2,7 @@
 SPECIFICATION Spec
 CONSTANTS
   TargetIds = {1, 3, 4, 7, 9, 10, 12, 13, 15}
-  MountCfgIds = {3, 5}
+  MountCfgIds = {5, 8}
   SecretIds = {2, 4}
 INVARIANTS WalkRefinesExpected
 CHECK_DEADLOCK FALSE
